@@ -124,10 +124,8 @@ def check_trace(net, mode, inverse, start, topsort_unvisited, events, hooks_used
         first_unv = min([i for i, e in enumerate(events) if e[0] == 'unvisited'], default=len(events))
         if first_unv < last_yield:
             errs.append(('unvisited_early', 'unvisited hook fired before the traversal finished'))
-    if 'end' in hooks_used:
-        ends = [i for i, e in enumerate(events) if e[0] == 'end']
-        if len(ends) != 1 or (events and ends and ends[0] != len(events) - 1):
-            errs.append(('end_hook', 'on_traversal_end_hook fired %d times / not last' % len(ends)))
+    # (on_traversal_end_hook is recorded but not judged: the property does not speak about it - an empty circuit, for
+    # which the library returns before calling it, showed that judging it demanded more than the property states)
     return errs
 
 
